@@ -16,6 +16,23 @@ const SPECIAL: [u32; 32] = [
 pub fn decode_strings(data: &[u8]) -> Vec<String> {
     let p = pools();
     let mut out = vec![String::new()];
+    // UTF-32 mode (first byte 0xFF): every 4 bytes are one little-endian code point, so that libFuzzer's comparison
+    // tracing (-use_value_profile, table of recent compares) can copy character constants the code compares against
+    // straight into the input; U+007F splits strings as in the compact mode
+    if data.first() == Some(&0xff) {
+        for ch in data[1..].chunks(4) {
+            let mut b = [0u8; 4];
+            b[..ch.len()].copy_from_slice(ch);
+            let v = u32::from_le_bytes(b) % 0x110000;
+            if v == 0x7f {
+                out.push(String::new());
+                continue;
+            }
+            let v = if (0xd800..0xe000).contains(&v) { v - 0xd800 + 0x5d0 } else { v };
+            out.last_mut().unwrap().push(char::from_u32(v).unwrap());
+        }
+        return out;
+    }
     let mut i = 0;
     while i < data.len() {
         let b = data[i];
